@@ -936,7 +936,7 @@ next_inst:
 static LY_ERR
 json_print_opaq(struct jsonpr_ctx *pctx, const struct lyd_node_opaq *node)
 {
-    ly_bool first = 1, last = 1;
+    ly_bool first = 1, last = 1, inner;
     uint32_t hints;
 
     if (node->hints == LYD_HINT_DATA) {
@@ -955,19 +955,23 @@ json_print_opaq(struct jsonpr_ctx *pctx, const struct lyd_node_opaq *node)
         }
     }
 
+    /* an object is printed for children, and for a list instance or a container only if there is no value to lose */
+    inner = node->child || (!node->value[0] && (hints & (LYD_NODEHINT_LIST | LYD_NODEHINT_CONTAINER)));
+
     if (first) {
         LY_CHECK_RET(json_print_member2(pctx, pctx->parent, node->format, &node->name, 0));
 
         if (hints & (LYD_NODEHINT_LIST | LYD_NODEHINT_LEAFLIST)) {
             LY_CHECK_RET(json_print_array_open(pctx, &node->node));
         }
-        if (hints & LYD_NODEHINT_LEAFLIST) {
+        if ((hints & LYD_NODEHINT_LEAFLIST) && !inner) {
             ly_print_(pctx->out, "%*s", INDENT);
         }
-    } else if (hints & LYD_NODEHINT_LEAFLIST) {
+    } else if (!inner) {
+        /* value separator, the separator of an object is printed with it */
         ly_print_(pctx->out, ",%s%*s", DO_FORMAT ? "\n" : "", INDENT);
     }
-    if (node->child || (hints & LYD_NODEHINT_LIST) || (hints & LYD_NODEHINT_CONTAINER)) {
+    if (inner) {
         LY_CHECK_RET(json_print_inner(pctx, &node->node));
         LEVEL_PRINTED;
     } else {
